@@ -2,6 +2,7 @@
    values and the extracted Coq datatypes (part of the trusted base), a tiny JSON
    printer, deterministic per-case PRNG, and the result accumulator. *)
 open Mtbl_model
+type string = Stdlib.String.t
 
 let rec pos_of_int i =
   if i <= 1 then XH
